@@ -249,4 +249,23 @@ PLAN = {
             {"name": "asan", "flavour": "asan", "shards": 2, "shards_thorough": 8, "thorough_only": True},
         ],
     },
+    "C10": {
+        "level": "exploration",
+        "rule": "flush leg: a synchronous flush driver (the forwarder's loop body without socket and sleeps) around the real State/registry/"
+                "writer; per trial 1-3 incrementing threads, one thread driving an absolute-only counter (increasing values), a gauge and a "
+                "histogram (unique values), and a flusher doing 2-6 flushes + an optional idle prelude + a 3-flush quiescent tail; a "
+                "quarter of the trials hold an updater at one of its 5 atomic-step hook points across a whole flush, a quarter hold the "
+                "flusher at one of AtomicCounter::flush's 3 steps until an updater finished, a quarter use random holds. Oracle on the "
+                "decoded flush outputs: conservation (sum of deltas == increments; absolute: last - first), no delta beyond what was "
+                "invoked, zero-exactly-once, gauge recency interval, histogram values exactly once and never late, timestamp presence "
+                "per documented mode, types. socket leg: built exporter (20 ms flush) against harness unix-stream / unixgram / UDP "
+                "sockets for >= 8 cycles. distinct = (hook interleaving signature, delta sequence) hash.",
+        "assumptions": ["UDP loopback may drop datagrams: on UDP only 'never more than recorded' and framing are judged",
+                        "socket leg completion is logical (received sum reaches the recorded total) under a 15 s watchdog whose expiry is inconclusive"],
+        "legs": [
+            {"name": "flush", "flavour": "native", "shards": 4, "shards_thorough": 16},
+            {"name": "socket", "flavour": "native", "shards": 6, "shards_thorough": 60, "timeout": 120},
+            {"name": "miri", "flavour": "miri", "shards": 6, "shards_thorough": 48, "miriflags": TB + " " + IGN, "timeout": 1500},
+        ],
+    },
 }
